@@ -44,12 +44,34 @@ def _case(draw, tier):
             if not _hidden:
                 topo = outer
                 labels.append("nested")
+        map_lists = {}
+        if "nested" not in labels and len(topo) >= 2 and prob(draw, 0.5):
+            # an interval run as a MAPPING graph node (zip or product over 1-2 of its plain inputs): the lists it returns
+            # must not depend on runner, schedule, or the order in which its own nodes are listed
+            n = len(topo)
+            a = draw(st.integers(0, n - 1))
+            b = draw(st.integers(a + 1, n))
+            S = topo[a:b]
+            allprod = ref.producers(topo)
+            cands = list(dict.fromkeys(q for x in S for q in x["params"] if q not in allprod and not any(q in y.get("defaults", {}) for y in topo)))
+            if cands:
+                mp = draw(st.permutations(cands))[: (2 if len(cands) >= 2 and prob(draw, 0.7) else 1)]
+                mode = "zip" if len(mp) == 1 else draw(st.sampled_from(["zip", "product", "product"]))
+                lens = [draw(st.integers(1, 3))] * len(mp) if mode == "zip" else [draw(st.sampled_from([1, 2, 2, 3])) for _ in mp]
+                map_lists = dict(zip(mp, lens))
+                wrapper = {"k": "graph", "name": "mapped", "graph": {"nodes": [dict(x) for x in S], "name": "mapped"},
+                           "flat_outputs": [o for x in S for o in x["outs"]],
+                           "map": {"params": list(mp), "mode": mode, "error_handling": "raise", "before_renames": True}}
+                topo = topo[:a] + [wrapper] + topo[b:]
+                labels.append("mapping_node:" + mode)
         nodes = draw(gen.permuted(topo))
     else:
         nodes, labels = draw(gen.g2_nodes(max_nodes=6))
+        map_lists = {}
     return {
         "nodes": nodes,
         "labels": labels,
+        "map_lists": map_lists,
         "omit": draw(st.lists(st.integers(0, 7), max_size=3)),
         "max_iter": draw(st.sampled_from([3, 6, 12, 25])),
         "entry_pick": draw(st.integers(0, 7)),
@@ -78,6 +100,8 @@ def _values_for(g, case):
     for p in opt:
         if p not in omit:
             vals[p] = ("in", p, 1)
+    for p, n in (case.get("map_lists") or {}).items():
+        vals[p] = [("in", p, j) for j in range(n)]
     return vals, kw
 
 
@@ -243,7 +267,15 @@ def check_case(case, ev):
                     j = (ps * 7919 + i * 104729) % (i + 1)
                     order[i], order[j] = order[j], order[i]
             ctx = Ctx(compact=True)
-            g = make_graph(ctx, {"nodes": [nodes[i] for i in order]}, "sync")
+            permuted = [nodes[i] for i in order]
+            # the node list INSIDE a mapping node is a node list too
+            def inner_order(k):
+                idx = list(range(k))
+                return idx[::-1] if tried == 0 else sorted(idx, key=lambda j: ((ps * 31 + j * 17) % 7, j))
+
+            permuted = [({**x, "graph": {**x["graph"], "nodes": [x["graph"]["nodes"][j] for j in inner_order(len(x["graph"]["nodes"]))]}}
+                         if x["k"] == "graph" and x.get("map") else x) for x in permuted]
+            g = make_graph(ctx, {"nodes": permuted}, "sync")
             out = run_sync(g, vals, max_iterations=mi, error_handling="continue", **kw)
             tried += 1
             if _norm(out, ctx) != base_norm:
